@@ -35,8 +35,8 @@ Definition c4_eqb (a b : c4) : bool :=
 Definition c4_max (a b : c4) : c4 := c4_map2 N.max a b.
 
 (* Which repairs are applied.  Committed in /repo: fix_counters (7e92d8e), fix_stop (e0693a6), fix_active (d70a5ae),
-   fix_sent (9b87063), fix_l2stop (d95fed1), fix_prune (7faf7f9), fix_ghost (5478db8), fix_presend (4de5a6b).  Not in /repo:
-   fix_order (known finding, no patch). *)
+   fix_sent (9b87063), fix_l2stop (d95fed1), fix_prune (7faf7f9), fix_ghost (5478db8), fix_presend (4de5a6b), fix_l2tp (a967234).
+   Not in /repo: fix_order (known finding, no patch). *)
 Record variant := Variant {
   fix_counters : bool;   (* applyVPPCounters also treats "cumulative < last reported" as a regress *)
   fix_stop : bool;       (* handleSessionRelease sends Stop only when it removed an acctCache entry *)
@@ -58,7 +58,8 @@ Definition Vt (s o l p : bool) : variant := Variant true true true s o l p false
 (* without fix_presend: LastSent reaches the checkpoint only with the outcome of the request *)
 Definition Vq (s o l p : bool) : variant := Variant true true true s o l p true false true.
 Definition Vg (s o l p : bool) : variant := Variant true true true s o l p true true false.   (* without fix_ghost *)
-Definition head : variant := Vt true false true true.   (* /repo HEAD *)
+Definition head : variant := V true false true true.    (* /repo HEAD *)
+Definition before_a967234 : variant := Vt true false true true.   (* HEAD before l2tp lifecycle events were decoded *)
 Definition before_4de5a6b : variant := Vq true false true true.   (* HEAD before LastSent was persisted pre-send *)
 Definition before_5478db8 : variant := Vg true false true true.   (* HEAD before the ghost-checkpoint fix *)
 Definition before_7faf7f9 : variant := V true false true false.   (* HEAD before the stop-on-prune fix *)
